@@ -167,6 +167,47 @@ theorem srs_frf_entries (cols : List (List (ℝ × ℝ))) (frq : List ℝ) (srs 
   obtain ⟨_, _, hsh, _, _⟩ := srsFrf_full cols frq srs Q g ret out h
   exact srsFrfSh_eq_some _ _ _ _ _ hsh
 
+/-- end to end (at least two FRF lines, given `srs_frq`, elastic oscillator `i`, FRF column `j`):
+`sh[i][j]` is the largest value over the merged grid `ffreq` of
+`|FRF_j|(Ω) · |H(Ω / srs_frq[i])|`, `|FRF_j|` being the linear interpolant of the magnitudes of
+column `j` (zero outside the FRF band) -/
+theorem srs_frf_value_spec (cols : List (List (ℝ × ℝ))) (frq sf : List ℝ) (Q : ℝ) (hQ : Q ≠ 0)
+    (g : Bool) (ret : Option Bool) (out : FrfOut ℝ) (h2 : 2 ≤ frq.length)
+    (h : srsFrf cols frq (some sf) Q g ret false = some out)
+    (i j : ℕ) (hi : i < sf.length) (hj : j < cols.length)
+    (hk : (5 : ℝ) / 1000 ≤ (2 * Real.pi * sf[i]) * (2 * Real.pi * sf[i])) :
+    ∃ row v, out.sh[i]? = some row ∧ row[j]? = some v ∧
+      v ∈ (frfGrid Q frq sf).map (fun W => |interpLin (frq.zip (absCol cols[j])) W|
+            * Real.sqrt (Complex.normSq (Hc (1 / 2 / Q) (W / sf[i])))) ∧
+      ∀ u ∈ (frfGrid Q frq sf).map (fun W => |interpLin (frq.zip (absCol cols[j])) W|
+            * Real.sqrt (Complex.normSq (Hc (1 / 2 / Q) (W / sf[i])))), u ≤ v := by
+  have hent := srs_frf_entries cols frq (some sf) Q g ret out h
+  simp only [frfSrsFrq] at hent
+  have h1 := congrArg (·[i]?) hent
+  simp only [List.getElem?_map, List.getElem?_eq_getElem hi, Option.map_some] at h1
+  cases hrow : out.sh[i]? with
+  | none => rw [hrow] at h1; simp at h1
+  | some row =>
+    rw [hrow] at h1
+    simp only [Option.map_some, Option.some.injEq] at h1
+    have h3 := congrArg (·[j]?) h1
+    simp only [List.getElem?_map, List.getElem?_eq_getElem hj, Option.map_some] at h3
+    cases hv : row[j]? with
+    | none => rw [hv] at h3; simp at h3
+    | some v =>
+      rw [hv] at h3
+      simp only [Option.map_some, Option.some.injEq] at h3
+      rw [frfAmps_of_two frq _ _ h2] at h3
+      obtain ⟨hm, hmax⟩ := srs_frf_is_max_over_merged_grid Q sf[i] hQ hk _ _ v h3
+      have e : List.zipWith
+          (fun f a => |a| * Real.sqrt (Complex.normSq (Hc (1 / 2 / Q) (f / sf[i]))))
+          (frfGrid Q frq sf) ((frfGrid Q frq sf).map (interpLin (frq.zip (absCol cols[j]))))
+          = (frfGrid Q frq sf).map (fun W => |interpLin (frq.zip (absCol cols[j])) W|
+              * Real.sqrt (Complex.normSq (Hc (1 / 2 / Q) (W / sf[i])))) := by
+        rw [List.zipWith_map_right, List.zipWith_self]
+      rw [e] at hm hmax
+      exact ⟨row, v, rfl, hv, hm, hmax⟩
+
 /-- `srs_frf(frf) = srs_frf(|frf|)`: replacing every FRF value by its magnitude changes nothing,
 whatever the options -/
 theorem srs_frf_abs_invariant (cols : List (List (ℝ × ℝ))) (frq : List ℝ) (srs : Option (List ℝ))
